@@ -187,6 +187,43 @@ func runC20(r *R) {
 				r.Und("C20-R4", cl, "fn(ctx, clusterID, backend, remoteOpts)", cl.Pos(), "backend call not found")
 				continue
 			}
+			// roles of the goroutine's parameters are taken from their types, not their names: the string is the
+			// cluster id, the map[string]bool the set of UUIDs still wanted
+			todoName, cidName := "param:todo", "param:clusterID"
+			var cidParam ssa.Value
+			for _, p := range cl.Params {
+				switch p.Type().String() {
+				case "map[string]bool":
+					todoName = "param:" + p.Name()
+				case "string":
+					cidName = "param:" + p.Name()
+					cidParam = p
+				}
+			}
+			// the progress flag: a boolean phi of the page loop fed by both constants
+			isProgress := func(v ssa.Value) bool {
+				p, ok := Strip(v).(*ssa.Phi)
+				if !ok || !isBoolType(p.Type()) {
+					return false
+				}
+				hasT, hasF := false, false
+				var visit func(q *ssa.Phi, depth int)
+				visit = func(q *ssa.Phi, depth int) {
+					for _, e := range q.Edges {
+						if b, isC := ConstBool(e); isC {
+							if b {
+								hasT = true
+							} else {
+								hasF = true
+							}
+						} else if q2, isP := Strip(e).(*ssa.Phi); isP && depth < 3 && q2 != q {
+							visit(q2, depth+1)
+						}
+					}
+				}
+				visit(p, 0)
+				return hasT && hasF
+			}
 			// loop condition
 			hdr := loopHeaderOf(call.Block())
 			okCond := false
@@ -194,7 +231,7 @@ func runC20(r *R) {
 				if iff, ok := lastInstr(hdr).(*ssa.If); ok {
 					if bo, ok := Strip(iff.Cond).(*ssa.BinOp); ok && bo.Op == token.GTR && lenVP(bo.X) {
 						k, _ := ConstInt(bo.Y)
-						okCond = k == 0 && strings.Contains(Canon(bo.X), "param:todo")
+						okCond = k == 0 && strings.Contains(Canon(bo.X), todoName)
 					}
 				}
 			}
@@ -204,7 +241,7 @@ func runC20(r *R) {
 			nProg := 0
 			allInstrs(cl, func(in ssa.Instruction) {
 				p, ok := in.(*ssa.Phi)
-				if !ok || p.Comment != "progress" {
+				if !ok || !isProgress(p) {
 					return
 				}
 				for i, e := range p.Edges {
@@ -217,12 +254,12 @@ func runC20(r *R) {
 								return false
 							}
 							l, ok := ex.Tuple.(*ssa.Lookup)
-							return ok && strings.Contains(Canon(l.X), "param:todo")
+							return ok && strings.Contains(Canon(l.X), todoName)
 						}))
 						// a delete(todo, uuid) in that block
 						hasDel := false
 						for _, x := range pred.Instrs {
-							if c, isC := x.(*ssa.Call); isC && CalleeName(c.Common()) == "builtin.delete" && strings.Contains(Canon(c.Call.Args[0]), "param:todo") {
+							if c, isC := x.(*ssa.Call); isC && CalleeName(c.Common()) == "builtin.delete" && strings.Contains(Canon(c.Call.Args[0]), todoName) {
 								hasDel = true
 							}
 						}
@@ -236,7 +273,7 @@ func runC20(r *R) {
 			// !progress ⇒ error send + return; len(done)==0 ⇒ break
 			okNoProg, okEmpty := false, false
 			for _, at := range errorDeliveries(cl) {
-				g, _ := Guard(cl, call, at, FalseC("progress", func(v ssa.Value) bool { return isNamedPhi(v, "progress") }))
+				g, _ := Guard(cl, call, at, FalseC("progress", func(v ssa.Value) bool { return isProgress(v) }))
 				if g {
 					okNoProg = true
 				}
@@ -268,7 +305,7 @@ func runC20(r *R) {
 			r.Check(okFnErr, "C20-R6", cl, "fn error ⇒ errs <- error", call.Pos(), "backend errors are reported", "a backend error is dropped")
 			// ---- R5
 			args := call.Call.Args
-			cid := paramOf(cl, "clusterID")
+			cid := cidParam
 			okBackend := true
 			nLocal, nRemote := 0, 0
 			for _, l := range PhiLeaves(args[2]) {
@@ -280,7 +317,7 @@ func runC20(r *R) {
 				switch {
 				case strings.Contains(cl2, "Conn.local"):
 					nLocal++
-				case strings.Contains(cl2, "Conn.remotes") && strings.Contains(cl2, "param:clusterID"):
+				case strings.Contains(cl2, "Conn.remotes") && strings.Contains(cl2, cidName):
 					nRemote++
 				default:
 					okBackend = false
